@@ -157,7 +157,7 @@ func (g *Gen) accelPattern() *Tree {
 	}
 	set := func() *Tree { return Class(false, [2]int{'a', 'b'}) }
 	body := func() *Tree { g.bud = 4; return g.seq(2, 2) }
-	switch g.pick(16) {
+	switch g.pick(18) {
 	case 12, 13: // an iterated body: letter, loop, nullable loop - what follows a loop is the body's own start on the next iteration
 		ab := func() *Tree {
 			if g.chance(0.3) {
@@ -177,6 +177,19 @@ func (g *Gen) accelPattern() *Tree {
 			loop = Rep(inner, 2, 2, false)
 		}
 		return T("cat", loop, Lit([]int{'a', 'b', 'c'}[g.pick(3)]))
+	case 16, 17: // a leading group repeated a fixed number of times beyond the analyzers' expansion cut-offs, then literal text
+		n := 4 + g.pick(3)
+		var unit *Tree
+		switch g.pick(3) {
+		case 0:
+			unit = lit(2)
+		case 1:
+			unit = Grp("", lit(2))
+		default:
+			unit = T("cat", lit(1), set())
+		}
+		loop := Rep(unit, n, n+[]int{0, 0, 1}[g.pick(3)], false)
+		return T("cat", loop, lit(1+g.pick(2)))
 	case 14, 15: // alternation whose branches put sets of different kinds (mergeable or not) at the same fixed offsets
 		item := func() *Tree {
 			switch g.pick(7) {
